@@ -445,3 +445,13 @@ proof fn prop_c12_transition_takes_effect(z: TimeZoneRef, u: int, lt: LocalTimeT
     }
     assert(in_slot(tr, i, t));
 }
+
+// C13 in one line: outside the carve-out of known finding F2 the constructor accepts exactly the well-formed zones
+proof fn prop_c13_exact(z: TimeZoneRef, r: Result<(), TzError>)
+    requires
+        zone_verdict(z, r),
+        !zone_defect_at_last(z),
+    ensures
+        (r is Ok) <==> zone_wf(z),
+{
+}
